@@ -108,6 +108,7 @@ def obligation(ctx, clause, bad, desc='', sig=''):
     r = ctx.check(bad)
     if r == 'unsat':
         d['discharged'] = d.get('discharged', 0) + 1
+        _crosscheck(ctx, clause, bad)
         return True
     if getattr(ctx, 'concrete', False):
         # replay run: a satisfiable violation formula over constants
@@ -131,6 +132,59 @@ def obligation(ctx, clause, bad, desc='', sig=''):
         clause=clause, desc=desc, sig=sig, values=None,
         choices=list(ctx.choices), kind='unknown'))
     return False
+
+
+XCHECK_DIR = os.environ.get('VERIF_XCHECK_DIR')
+XCHECK_EVERY = int(os.environ.get('VERIF_XCHECK_EVERY', '97'))
+_xcount = [0]
+
+
+def _crosscheck(ctx, clause, bad):
+    """thorough tier: a sample of discharged obligations is written out as
+    SMT-LIB2 and re-decided by independent solver binaries (DESIGN 3.2)"""
+    if not XCHECK_DIR or getattr(ctx, 'concrete', False):
+        return
+    _xcount[0] += 1
+    if _xcount[0] % XCHECK_EVERY:
+        return
+    s = z3.Solver()
+    for c in ctx.pc:
+        s.add(c)
+    for a in ctx.axioms:
+        s.add(a)
+    s.add(bad)
+    name = os.path.join(XCHECK_DIR, '%d-%d-%s.smt2' % (
+        os.getpid(), _xcount[0], clause[:30]))
+    with open(name, 'w') as f:
+        f.write(s.to_smt2())
+
+
+def run_crosscheck(dirname, limit=60):
+    """re-decide the sampled queries with /usr/bin/z3 (4.8) and cvc5"""
+    import glob
+    import subprocess
+    res = dict(sampled=0, z3_old_unsat=0, cvc5_unsat=0, disagree=[],
+               inconclusive=0)
+    for fn in sorted(glob.glob(os.path.join(dirname, '*.smt2')))[:limit]:
+        res['sampled'] += 1
+        for tool, cmd in (('z3_old', ['/usr/bin/z3', '-T:20', fn]),
+                          ('cvc5', ['cvc5', '--tlimit=20000', fn])):
+            try:
+                p = subprocess.run(cmd, capture_output=True, text=True,
+                                   timeout=40)
+                out = p.stdout.strip().splitlines()
+                ans = out[0] if out else 'error'
+                if '(error' in p.stdout or '(error' in p.stderr:
+                    ans = 'error'
+            except Exception:
+                ans = 'timeout'
+            if ans == 'unsat':
+                res[tool + '_unsat'] += 1
+            elif ans == 'sat':
+                res['disagree'].append('%s says sat on %s' % (tool, fn))
+            else:
+                res['inconclusive'] += 1
+    return res
 
 
 def violation(ctx, clause, desc='', sig=''):
@@ -233,6 +287,12 @@ def run_check(prop, families, level='model_checking', technique='',
     if args.replay:
         return _replay_file(prop, fams, args.replay)
     t0 = time.time()
+    xdir = None
+    if tier == 'thorough' and os.environ.get('VERIF_NO_XCHECK') != '1':
+        import tempfile
+        global XCHECK_DIR
+        xdir = tempfile.mkdtemp(prefix='verif-xcheck-')
+        XCHECK_DIR = xdir
     budget = quick_budget if tier == 'quick' else thorough_budget
     known = load_known()
     totals = collections.Counter()
@@ -319,6 +379,14 @@ def run_check(prop, families, level='model_checking', technique='',
                 known_hit.setdefault(k['id'], (k, fam.name, v))
                 continue
             viol_reported.append((fam, v, detail))
+    xres = None
+    if xdir:
+        import shutil
+        xres = run_crosscheck(xdir)
+        shutil.rmtree(xdir, ignore_errors=True)
+        if xres['disagree']:
+            harness_errors.append('solver cross-check disagrees: %s'
+                                  % xres['disagree'][:3])
     wall = time.time() - t0
     if post is not None:
         post_ev = post(tier)
@@ -387,6 +455,8 @@ def run_check(prop, families, level='model_checking', technique='',
                    else extra_evidence)
     if post_ev:
         cov['post'] = post_ev
+    if xres:
+        cov['solver_crosscheck'] = xres
     ev = dict(property_id=prop, tier=tier, seed=seed, level=level,
               coverage=cov, assumptions=list(assumptions),
               wall_s=round(wall, 2), violations=len(viol_reported))
